@@ -350,6 +350,12 @@ impl Ctx {
         if self.rep.failures.len() >= 20 {
             return;
         }
+        // known F-C04-7: a file base with a drive-letter-shaped segment trips debug_assert parser.rs (pop of a
+        // drive letter) on dot-segment references; the model predicts the same panic, C08 says nothing about it
+        if base.scheme() == "file" && base.path().split('/').any(is_wdl_seg) && impl_join(base, input) == "panic" {
+            self.rep.bump("known-panic:F-C04-7");
+            return;
+        }
         if let Some(w) = prop_c08(base, input) {
             // prop_c08 compares the text in front of the path; for a base without authority the '/.' marker
             // (inserted or removed by with_query_and_fragment) is part of that text although it carries no
